@@ -224,8 +224,8 @@ PROPS = {
     },
     "C19": {
         "extra_props": ["NetSpelling"],
-        "model_spec_ops": ["c sendtx", "x decode"],
-        "spec_ops": [],
+        "model_spec_ops": ["x decode"],
+        "spec_ops": ["c sendtx"],
         "streams": [{"name": "txc", "quick": 3000, "thorough": 60000}, {"name": "sync", "quick": 160, "thorough": 1600}],
         "rule": "txc stream: random transactions (0-3 inputs, 0-3 outputs, legacy/segwit, witness stacks, scripts of 0-300 bytes), their exact serialisation and variants: extended by 1-5 bytes, truncated, "
                 "3 single-bit flips, a one-byte length replaced by 3/5/9-byte encodings (incl. 2^32+b), mangled segwit marker/flag, garbage; each fed to consensus::deserialize::<Transaction> (what send_transaction calls) "
@@ -238,9 +238,9 @@ PROPS = {
         "assumptions": ["payload elements are bytes (< 256)"],
     },
     "C14": {
-        "extra_props": ["NetSpelling", "FullCor", "FullCorExample", "HeaderSlots"],
-        "model_spec_ops": ["c call", "c q synced"],
-        "spec_ops": [],
+        "extra_props": ["NetSpelling", "FullCor", "FullCorExample", "HeaderSlots", "GuardTable"],
+        "model_spec_ops": ["c q synced"],
+        "spec_ops": ["c call"],
         "streams": [{"name": "sync", "quick": 160, "thorough": 3200}],
         "rule": SYNC_RULE,
         "explanation": "theorems: guard passes iff (access enabled, network matches, sync rule); precedence of refusals; refused calls return no state and charge nothing; send_transaction exempt; "
@@ -252,8 +252,7 @@ PROPS = {
     },
     "C16": {
         "extra_props": ["FullCor", "FullCorExample"],
-        "model_spec_ops": ["c call"],
-        "spec_ops": [],
+        "spec_ops": ["c call"],
         "streams": [{"name": "sync", "quick": 160, "thorough": 3200}],
         "rule": SYNC_RULE,
         "explanation": "theorems: charge formulas (metered/flat/send), refusal below maximum before any charge, result <= maximum, query variants accept 0, and from the regenerated tables: "
